@@ -353,7 +353,7 @@ def dedupe(ts):
     return out
 
 
-def nth_axioms(formulas, rounds=5, limit=600):
+def nth_axioms(formulas, rounds=10, limit=6000):
     """Ground instances of the definition of indexing for every nth.int(S, J) term whose S is (equal to) a concatenation,
     unit, empty or ite:  nth(X ++ Y, j) = j < |X| ? nth(X, j) : nth(Y, j - |X|);  nth(unit(v), 0) = v."""
     from .smt import nth_int
@@ -423,7 +423,7 @@ def _structured(S):
     if not z3.is_app(S):
         return False
     k = S.decl().kind()
-    return k in (z3.Z3_OP_SEQ_CONCAT, z3.Z3_OP_SEQ_UNIT, z3.Z3_OP_SEQ_EMPTY, z3.Z3_OP_ITE)
+    return k in (z3.Z3_OP_SEQ_CONCAT, z3.Z3_OP_SEQ_UNIT, z3.Z3_OP_SEQ_EMPTY, z3.Z3_OP_ITE, z3.Z3_OP_SEQ_EXTRACT)
 
 
 def _nth_def(S, J, nth_int):
@@ -435,7 +435,17 @@ def _nth_def(S, J, nth_int):
     if k == z3.Z3_OP_SEQ_CONCAT:
         out = []
         off = z3.IntVal(0)
-        for X in S.children():
+        parts = []
+
+        def flat(e):
+            if z3.is_app(e) and e.decl().kind() == z3.Z3_OP_SEQ_CONCAT:
+                for c in e.children():
+                    flat(c)
+            else:
+                parts.append(e)
+
+        flat(S)
+        for X in parts:
             ln = z3.Length(X)
             out.append(z3.Implies(z3.And(off <= J, J < off + ln), nth_int(S, J) == nth_int(X, z3.simplify(J - off))))
             off = z3.simplify(off + ln)
@@ -443,6 +453,9 @@ def _nth_def(S, J, nth_int):
     if k == z3.Z3_OP_ITE:
         c, A, B = S.children()
         return [z3.Implies(c, nth_int(S, J) == nth_int(A, J)), z3.Implies(z3.Not(c), nth_int(S, J) == nth_int(B, J))]
+    if k == z3.Z3_OP_SEQ_EXTRACT:
+        X, o, l = S.children()
+        return [z3.Implies(z3.And(0 <= J, J < l, 0 <= o, o + J < z3.Length(X)), nth_int(S, J) == nth_int(X, z3.simplify(o + J)))]
     return []
 
 
